@@ -144,7 +144,29 @@ class _CodeValidator(ast.NodeVisitor):
         '`import` is not allowed.',
     )
 
-    super().generic_visit(node)
+    if not self._iterative:
+      super().generic_visit(node)
+
+  _iterative = False
+
+  def validate(self, root: ast.AST) -> None:
+    """Checks every node below `root`, in the order of a recursive visit.
+
+    The walk keeps its own stack: a deeply nested program is refused or accepted
+    like any other instead of exhausting the interpreter's recursion limit.
+
+    Args:
+      root: The root of the tree to check.
+    """
+    self._iterative = True
+    try:
+      stack = [root]
+      while stack:
+        node = stack.pop()
+        self.generic_visit(node)
+        stack.extend(reversed(list(ast.iter_child_nodes(node))))
+    finally:
+      self._iterative = False
 
 
 def parse(
@@ -154,7 +176,7 @@ def parse(
   try:
     parsed_code = ast.parse(code, mode='exec')
     if permission is not None:
-      _CodeValidator(code, permission).visit(parsed_code)
+      _CodeValidator(code, permission).validate(parsed_code)
   except SyntaxError as e:
     raise errors.CodeError(code, e) from e
   return parsed_code
